@@ -111,6 +111,16 @@ CHECKS = {
               "abandoned partial runs, and optimizer replacement on one shared cache and checks every full run against the "
               "reference, so results cannot depend on cache contents or generation history. Exploration."),
         design='4/C10'),
+    'C05': dict(
+        technique="Hypothesis property-based testing (structured password grammar + st.text filtered by the real input filter) and a Hypothesis RuleBasedStateMachine over detector training histories; validity-predicate oracle on the recorded segmentation and exact counter-delta tallies",
+        text=("Passwords built from interleaving/overlapping trigger fragments (words, multi-words, digits, years, keyboard walks over "
+              "both layouts, context strings and near-misses, e-mail/website look-alikes, Unicode incl. U+0130) are parsed by the real "
+              "parser behind a real multi-word detector whose training history is generated and mirrored in a dict model; the section "
+              "list handed to base_structure_creation must tile the password, have no empty/untyped segment, true lengths, sound "
+              "labels (maximal digit runs, alpha only letters and split only per the threshold rule, years, walks on one common "
+              "layout with mixed classes per the harness' own layout tables, context list, 'other' without letters/digits), and the "
+              "counters must change by exactly the tallies of those segments. Exploration."),
+        design='4/C05'),
 }
 
 NOT_YET = "check not built yet in this round (design exists in DESIGN.md section 4); not claimed until it runs"
